@@ -314,8 +314,14 @@ func (r restServerProtocol) addProtocolRequestHeaders(meta requestMeta, headers 
 func (r restServerProtocol) extractProtocolResponseHeaders(statusCode int, headers http.Header) (responseMeta, responseEndUnmarshaller, error) {
 	contentType := headers.Get("Content-Type")
 	if statusCode/100 != 2 {
+		// The error body may be encoded like any other body (a compressing
+		// middleware does not look at the status): name the encoding so that
+		// the body is inflated before it is parsed.
+		compression := headers.Get("Content-Encoding")
+		headers.Del("Content-Encoding")
 		return responseMeta{
-				end: &responseEnd{httpCode: statusCode},
+				compression: compression,
+				end:         &responseEnd{httpCode: statusCode, wasCompressed: compression != "" && compression != CompressionIdentity},
 			}, func(_ Codec, buf *bytes.Buffer, end *responseEnd) {
 				if err := httpErrorFromResponse(statusCode, contentType, buf); err != nil {
 					end.err = err
